@@ -154,12 +154,14 @@ Theorem c04_capacity_float_exact :
   get_capacity lg (c_lg_nom c) = if lg <=? c_lg_nom c then 2 ^ lg / 2 else 15 * 2 ^ lg / 16.
 Proof. exact get_capacity_exact. Qed.
 
-(* the builder accepts every documented configuration *)
+(* the builder accepts every documented configuration (the seed's 16-bit seed hash must not be zero:
+   seed() panics otherwise, documented) *)
 Theorem c04_build_ok :
   forall c, cfg_ok c ->
   PrimFloat.ltb 0%float (float_of_bits (c_pbits c)) = true ->
   PrimFloat.leb (float_of_bits (c_pbits c)) 1%float = true ->
   PrimFloat.leb 0%float (float_of_bits (c_pbits c)) = true ->
+  c_seed_hash c <> 0 ->
   sk_build c = Ok (sk_new c).
 Proof. exact build_ok. Qed.
 
